@@ -111,6 +111,20 @@ func loadKnown(prop string) ([]KnownEntry, error) {
 					return nil, fmt.Errorf("known_findings: bad hex %q", p[1])
 				}
 				e.Pred.Bytes = b
+			case p[0] == "eq" || p[0] == "ne":
+				// eq=3:4,4:5  byte positions (of tag) that are equal / different
+				for _, pr := range strings.Split(p[1], ",") {
+					ij := strings.SplitN(pr, ":", 2)
+					if len(ij) == 2 {
+						a, _ := strconv.Atoi(ij[0])
+						b, _ := strconv.Atoi(ij[1])
+						if p[0] == "eq" {
+							e.Pred.Eq = append(e.Pred.Eq, [2]int{a, b})
+						} else {
+							e.Pred.Ne = append(e.Pred.Ne, [2]int{a, b})
+						}
+					}
+				}
 			case strings.HasPrefix(p[0], "arg."):
 				v, _ := strconv.ParseInt(p[1], 10, 64)
 				e.Pred.Arg[p[0][4:]] = v
